@@ -2,3 +2,4 @@ pub mod val;
 pub mod gen;
 pub mod obs;
 pub mod tree;
+pub mod stree;
